@@ -89,7 +89,7 @@ CLAIMED = {
   "Lean 4 proof (invariant by induction over histories; refinement of C01/C09) + real-git history runs",
   "DESIGN.md section 7, C08"),
  "C02": (
-  "Lean 4 theorems C02_*. (1) TABLE TIE on the REGENERATED tables: every value a part can take is rendered (PART_FORMATS, classified from the formatter's Python AST) to text that the part's own regex (PART_PATTERNS, parsed by the model's regex-syntax parser) consumes in full — alone, before a non-digit continuation (maximal munch; longest alternative first is CHECKED) and, for fixed-width parts, before a digit — and that reads back as the same value: finite calendar domains by kernel evaluation over the whole domain, unbounded numeric parts and BUILD by induction on digit lists, years by the four-digit lemma, tags over the tag tables; cal_info's outputs lie inside those domains for EVERY valid date (C02_calinfo_domains) except week 53 (C02_week53_witness = known finding). (2) COMPOSITION over whole patterns, proved on the pattern tree for EVERY well-formed tree (any nesting of optional groups, any literal separators) and EVERY record in the domain of its rendered parts: C02_accepted_in_full (the first success of the compiled regex consumes the whole rendered text and captures exactly the rendered part texts), C02_roundtrip_ast / C02_roundtrip_of_date (read back through parse_field_values_to_vinfo/_to_cinfo with every part equal, all-zero groups omitted again, re-rendered byte for byte; calendar of any valid date), C02_tagCoh_invariant (the coherence hypothesis is preserved by reading and bumping). The tie between the tree and bumpver's STRING SURGERY (escape loop, `while True` bracket substitution, `_iter_part_patterns`, sort by (-end,-len), right-to-left substitution, `re.compile`; `_parse_segtree`, `_format_segment_tree`, `_format_segment`) is now PROVED IN GENERAL (Props/C02Tie.lean): compile_tie (compileRe (text p) = Pat.compile p), tokenize_tie, format_tie (formatVersion v (text p) = render v p) and C02_roundtrip_code (the round trip stated on formatVersion / parseVersionInfo themselves) for EVERY tree satisfying the decidable, local side condition tokSafe (literal text in the C07 language, no part name beginning at a literal or straddling a token, each field once, contained part names harmless); tie_needs_condition is the kernel-checked witness that a condition is needed (tree NUM·MM, text NUMMM). All 18 README patterns are tokSafe (C02Tie_readme_tokSafe) and the driver reports per run how many generated patterns are (quick tier: 1250 of 1250). Table facts the proof needs are `decide` obligations over the REGENERATED tables. Oracle on the implementation: render -> parse -> fields equal -> re-render identical -> next run accepts; thorough tier every date 2001..2099 through every calendar part.",
+  "Lean 4 theorems C02_*. (1) TABLE TIE on the REGENERATED tables: every value a part can take is rendered (PART_FORMATS, classified from the formatter's Python AST) to text that the part's own regex (PART_PATTERNS, parsed by the model's regex-syntax parser) consumes in full — alone, before a non-digit continuation (maximal munch; longest alternative first is CHECKED) and, for fixed-width parts, before a digit — and that reads back as the same value: finite calendar domains by kernel evaluation over the whole domain, unbounded numeric parts and BUILD by induction on digit lists, years by the four-digit lemma, tags over the tag tables; cal_info's outputs lie inside those domains for EVERY valid date (C02_calinfo_domains) except week 53 (C02_week53_witness = known finding). (2) COMPOSITION over whole patterns, proved on the pattern tree for EVERY well-formed tree (any nesting of optional groups, any literal separators) and EVERY record in the domain of its rendered parts: C02_accepted_in_full (the first success of the compiled regex consumes the whole rendered text and captures exactly the rendered part texts), C02_roundtrip_ast / C02_roundtrip_of_date (read back through parse_field_values_to_vinfo/_to_cinfo with every part equal, all-zero groups omitted again, re-rendered byte for byte; calendar of any valid date), C02_tagCoh_invariant (the coherence hypothesis is preserved by reading and bumping). The tie between the tree and bumpver's STRING SURGERY (escape loop, `while True` bracket substitution, `_iter_part_patterns`, sort by (-end,-len), right-to-left substitution, `re.compile`; `_parse_segtree`, `_format_segment_tree`, `_format_segment`) is now PROVED IN GENERAL (Props/C02Tie.lean): compile_tie (compileRe (text p) = Pat.compile p), tokenize_tie, format_tie (formatVersion v (text p) = render v p) and C02_roundtrip_code (the round trip stated on formatVersion / parseVersionInfo themselves) for EVERY tree satisfying the decidable, local side condition tokSafe (literal text in the C07 language, no part name beginning at a literal or straddling a token, each field once, contained part names harmless); tie_needs_condition is the kernel-checked witness that a condition is needed (tree NUM·MM, text NUMMM). All 18 README patterns are tokSafe (C02Tie_readme_tokSafe) and the driver reports per run how many generated patterns are (quick tier: 1250 of 1250). Table facts the proof needs are `decide` obligations over the REGENERATED tables. HEADLINE (Props/C02Code.lean): C02_code — for every tokSafe tree and every record in its domain the round trip holds of GenF.formatVersion / GenF.parseVersionInfo / GenF.isValid, the definitions TRANSLATED FROM THE PYTHON SOURCE of format_version / parse_version_info / is_valid on every run (accepted in full, every part equal, re-rendered byte for byte, is_valid true), C02_code_of_date for records reachable by bumping, C02_code_readme for all README patterns with no pattern hypothesis left; the group-name hypothesis of the read-side ties and the hypothesis of tie_incr are theorems for tokSafe pattern texts. Oracle on the implementation: render -> parse -> fields equal -> re-render identical -> next run accepts; thorough tier every date 2001..2099 through every calendar part.",
   "Trusted: Lean kernel + standard axioms; translator (both tables, formatter shapes); Python re modelled on the fragment (tied by compile_search/re_search ops); the tokenizer tie tree <-> string surgery is proved under the decidable side condition tokSafe (Props/C02Tie.lean) and checked per pattern outside it. Week 53 under WW/0W/UU/0U: known finding F-C02-week53.",
   "Lean 4 proof: per part over regenerated tables (decide +kernel on whole domains, induction on digit lists) and structural induction over pattern trees with a list-of-successes regex semantics (composition, read-back) + correspondence + round-trip oracle",
   "DESIGN.md section 7, C02"),
